@@ -259,6 +259,7 @@ func indexCoupled(op wasm.Opcode) bool {
 //@   trusted
 //@   ensures !indexCoupled(opcode) ==> c.pc == old(c.pc)
 //@   ensures[dead-code-no-index] old(c.unreachableState.on) && !indexCoupled(opcode) ==> err == nil
+//@   ensures[index-immediate] !old(c.unreachableState.on) && indexCoupled(opcode) && err == nil && old(c.pc)+1 < uint64(len(c.body)) && c.body[old(c.pc)+1] < 0x80 ==> c.pc == old(c.pc)+1 && index == uint32(c.body[old(c.pc)+1])
 //@   ensures[dead-code-index] old(c.unreachableState.on) && indexCoupled(opcode) && old(c.pc)+1 < uint64(len(c.body)) && c.body[old(c.pc)+1] < 0x80 ==> err == nil && c.pc == old(c.pc)+1
 //@   modifies c.stack, c.stackLenInUint64, c.pc, elems(c.stack)
 // (the dead-code clause of the assumed contract above is proved here, where applyToStack returns early)
@@ -267,6 +268,17 @@ func indexCoupled(op wasm.Opcode) bool {
 //@   ensures[pc-unchanged-without-index] !indexCoupled(opcode) ==> c.pc == old(c.pc) && err == nil
 //@   ensures[dead-code-index] indexCoupled(opcode) && old(c.pc)+1 < uint64(len(c.body)) && c.body[old(c.pc)+1] < 0x80 ==> err == nil && c.pc == old(c.pc)+1
 //@   modifies c.pc
+//@   nosafety keep-pre
+
+// (the index clause of the assumed contract above, proved of the real code for live code too; the operand
+// type signature table is not under contract)
+//@ func (c *compiler) wasmOpcodeSignature(op wasm.Opcode, index uint32) (*signature, error)
+//@   trusted
+//@   modifies nothing
+//@ case index-immediate (c *compiler) applyToStack(opcode wasm.Opcode) (index uint32, err error)
+//@   requires !c.unreachableState.on && c.pc < 1<<40
+//@   ensures[pc-unchanged-without-index] !indexCoupled(opcode) ==> c.pc == old(c.pc)
+//@   ensures[index-immediate] indexCoupled(opcode) && err == nil && old(c.pc)+1 < uint64(len(c.body)) && c.body[old(c.pc)+1] < 0x80 ==> c.pc == old(c.pc)+1 && index == uint32(c.body[old(c.pc)+1])
 //@   nosafety keep-pre
 
 //@ func (c *compiler) getFrameDropRange(frame *controlFrame, isEnd bool) inclusiveRange
